@@ -3,6 +3,7 @@
 package rest
 
 import (
+	"os"
 	"github.com/couchbase/go-blip"
 	"bytes"
 	"encoding/json"
@@ -33,6 +34,22 @@ var c19Keys = []string{`a`, ``, `é`, `_x`, `__`, `a.b`, `A`, `$ref`, `😀`}
 type c19Case struct {
 	Body  string `json:"body"`
 	Write string `json:"write"`
+	// Reserved: the body carries a property a client must not set; the write must be refused and store nothing
+	Reserved bool `json:"reserved,omitempty"`
+}
+
+func (e *c19Env) checkReserved(r *vreport.Report, c c19Case) {
+	e.n++
+	id := fmt.Sprintf("c19r_%d_%d", r.Shard, e.n)
+	code, msg := e.write(c.Write, id, c.Body)
+	get := e.rt.SendAdminRequest("GET", "/{{.keyspace}}/"+id, "")
+	if code < 400 || code >= 500 {
+		r.Violate("C19/reserved-property-not-rejected/"+c.Write, fmt.Sprintf("%s of %q -> %d %s (expected a 4xx rejection); GET -> %d %s", c.Write, c.Body, code, msg, get.Code, get.Body.String()), c)
+	} else if get.Code == 200 {
+		r.Violate("C19/reserved-property-stored/"+c.Write, fmt.Sprintf("%s of %q was rejected but something is stored: %s", c.Write, c.Body, get.Body.String()), c)
+	}
+	r.Add("evaluations", 1)
+	r.Add("reserved_property_cases", 1)
 }
 
 // generate the document bodies (JSON object texts)
@@ -352,7 +369,11 @@ func TestVerifC19(t *testing.T) {
 	e := &c19Env{rt: rt}
 	var rc c19Case
 	if r.Replaying(&rc) {
-		e.checkCase(r, rc)
+		if rc.Reserved {
+			e.checkReserved(r, rc)
+		} else {
+			e.checkCase(r, rc)
+		}
 		return
 	}
 	bodies := c19Bodies(r.Thorough())
@@ -379,18 +400,7 @@ func TestVerifC19(t *testing.T) {
 			if !r.Mine(i) {
 				continue
 			}
-			e.n++
-			id := fmt.Sprintf("c19r_%d_%d", r.Shard, e.n)
-			code, msg := e.write(wp, id, b)
-			c := c19Case{Body: b, Write: wp}
-			get := rt.SendAdminRequest("GET", "/{{.keyspace}}/"+id, "")
-			if code < 400 || code >= 500 {
-				r.Violate("C19/reserved-property-not-rejected/"+wp, fmt.Sprintf("%s of %s -> %d %s (expected a 4xx rejection); GET -> %d %s", wp, b, code, msg, get.Code, get.Body.String()), c)
-			} else if get.Code == 200 {
-				r.Violate("C19/reserved-property-stored/"+wp, fmt.Sprintf("%s of %s was rejected but something is stored: %s", wp, b, get.Body.String()), c)
-			}
-			r.Add("evaluations", 1)
-			r.Add("reserved_property_cases", 1)
+			e.checkReserved(r, c19Case{Body: b, Write: wp, Reserved: true})
 		}
 	}
 	// properties a replication push must not carry, with every kind of whitespace between the key and the colon
@@ -402,19 +412,7 @@ func TestVerifC19(t *testing.T) {
 				if !r.Mine(bi) {
 					continue
 				}
-				e.n++
-				id := fmt.Sprintf("c19b_%d_%d", r.Shard, e.n)
-				b := `{"v":1,"` + prop + `"` + sep + `:` + val + `}`
-				code, msg := e.write("BLIP", id, b)
-				c := c19Case{Body: b, Write: "BLIP"}
-				get := rt.SendAdminRequest("GET", "/{{.keyspace}}/"+id, "")
-				if code < 400 || code >= 500 {
-					r.Violate("C19/reserved-property-not-rejected/BLIP", fmt.Sprintf("push of %q -> %d %s (expected a rejection); GET -> %d %s", b, code, msg, get.Code, get.Body.String()), c)
-				} else if get.Code == 200 {
-					r.Violate("C19/reserved-property-stored/BLIP", fmt.Sprintf("push of %q was rejected but something is stored: %s", b, get.Body.String()), c)
-				}
-				r.Add("evaluations", 1)
-				r.Add("reserved_property_cases", 1)
+				e.checkReserved(r, c19Case{Body: `{"v":1,"` + prop + `"` + sep + `:` + val + `}`, Write: "BLIP", Reserved: true})
 			}
 		}
 	}
